@@ -1,5 +1,128 @@
 package main
 
+import (
+	"bytes"
+	"fmt"
+	"go/ast"
+	"go/printer"
+	"go/token"
+	"go/types"
+	"os"
+	"path/filepath"
+	"strings"
+
+	"golang.org/x/tools/go/ast/astutil"
+	"golang.org/x/tools/go/packages"
+)
+
+// nativeRewrite: for the native replay build, redirect calls to stubbed
+// callees (harness.json "stubs") inside the package's own source files to the
+// harness stubs.  The files are re-printed from the syntax trees of the
+// current tree, so the replay compiles exactly the code that was interpreted.
 func nativeRewrite(w *World, pkg string, tmp string) (map[string]string, error) {
-	return map[string]string{}, nil
+	out := map[string]string{}
+	if len(w.cfg.Stubs) == 0 {
+		return out, nil
+	}
+	var target *packages.Package
+	for _, p := range w.pkgs {
+		if p.PkgPath == repoMod+"/"+pkg {
+			target = p
+		}
+	}
+	if target == nil {
+		return out, nil
+	}
+	// stub short names usable from this package
+	stubFor := map[string]string{}
+	for callee, stub := range w.cfg.Stubs {
+		parts := strings.SplitN(stub, ".", 2)
+		if parts[0] != pkg {
+			continue
+		}
+		stubFor[callee] = parts[1]
+	}
+	if len(stubFor) == 0 {
+		return out, nil
+	}
+	info := target.TypesInfo
+	for i, f := range target.Syntax {
+		fname := target.CompiledGoFiles[i]
+		base := filepath.Base(fname)
+		if strings.HasPrefix(base, "zz_verif_") || strings.HasSuffix(base, "_test.go") {
+			continue
+		}
+		changed := false
+		astutil.Apply(f, func(c *astutil.Cursor) bool {
+			call, ok := c.Node().(*ast.CallExpr)
+			if !ok {
+				return true
+			}
+			switch fun := call.Fun.(type) {
+			case *ast.Ident:
+				if obj, ok := info.Uses[fun].(*types.Func); ok {
+					if stub, ok := stubFor[obj.FullName()]; ok {
+						call.Fun = ast.NewIdent(stub)
+						changed = true
+					}
+				}
+			case *ast.SelectorExpr:
+				if sel, ok := info.Selections[fun]; ok && sel.Kind() == types.MethodVal {
+					obj, _ := sel.Obj().(*types.Func)
+					if obj == nil {
+						return true
+					}
+					stub, ok := stubFor[obj.FullName()]
+					if !ok {
+						return true
+					}
+					recv := fun.X
+					sig := obj.Type().(*types.Signature)
+					_, wantPtr := sig.Recv().Type().(*types.Pointer)
+					_, havePtr := info.TypeOf(fun.X).Underlying().(*types.Pointer)
+					if wantPtr && !havePtr {
+						recv = &ast.UnaryExpr{Op: token.AND, X: fun.X}
+					} else if !wantPtr && havePtr {
+						recv = &ast.StarExpr{X: fun.X}
+					}
+					call.Fun = ast.NewIdent(stub)
+					call.Args = append([]ast.Expr{recv}, call.Args...)
+					changed = true
+				} else if obj, ok := info.Uses[fun.Sel].(*types.Func); ok {
+					if stub, ok := stubFor[obj.FullName()]; ok {
+						call.Fun = ast.NewIdent(stub)
+						changed = true
+					}
+				}
+			}
+			return true
+		}, nil)
+		if !changed {
+			continue
+		}
+		// drop imports that are no longer used
+		for _, imp := range f.Imports {
+			path := strings.Trim(imp.Path.Value, `"`)
+			if imp.Name != nil && (imp.Name.Name == "_" || imp.Name.Name == ".") {
+				continue
+			}
+			if !astutil.UsesImport(f, path) {
+				if imp.Name != nil {
+					astutil.DeleteNamedImport(target.Fset, f, imp.Name.Name, path)
+				} else {
+					astutil.DeleteImport(target.Fset, f, path)
+				}
+			}
+		}
+		var buf bytes.Buffer
+		if err := printer.Fprint(&buf, target.Fset, f); err != nil {
+			return nil, fmt.Errorf("print %s: %v", base, err)
+		}
+		dst := filepath.Join(tmp, "rw_"+strings.ReplaceAll(pkg, "/", "_")+"_"+base)
+		if err := os.WriteFile(dst, buf.Bytes(), 0o644); err != nil {
+			return nil, err
+		}
+		out[fname] = dst
+	}
+	return out, nil
 }
